@@ -237,6 +237,14 @@ def host_no(address):
     return int(str(address).rsplit(".", 1)[1]) - 1
 
 
+def host_num(host):
+    """Host number of a driver Host: hosts behind the control node's address are told apart by their native port."""
+    port = getattr(host.endpoint, "port", None)
+    if port not in (None, 9042):
+        return port - 9042
+    return host_no(host.address)
+
+
 def hid(h):
     return uuid.UUID(int=0x1000 + h)
 
@@ -253,16 +261,16 @@ class RecListener(HostStateListener):
         self.events = []
 
     def on_up(self, host):
-        self.events.append(("up", host_no(host.address)))
+        self.events.append(("up", host_num(host)))
 
     def on_down(self, host):
-        self.events.append(("down", host_no(host.address)))
+        self.events.append(("down", host_num(host)))
 
     def on_add(self, host):
-        self.events.append(("add", host_no(host.address)))
+        self.events.append(("add", host_num(host)))
 
     def on_remove(self, host):
-        self.events.append(("remove", host_no(host.address)))
+        self.events.append(("remove", host_num(host)))
 
 
 class RecLBP(RoundRobinPolicy):
@@ -274,7 +282,7 @@ class RecLBP(RoundRobinPolicy):
         self.events = []
 
     def _rec(self, kind, host):
-        self.events.append((kind, host_no(host.address), LOC_OF.get((host.datacenter, host.rack), (host.datacenter, host.rack))))
+        self.events.append((kind, host_num(host), LOC_OF.get((host.datacenter, host.rack), (host.datacenter, host.rack))))
 
     def on_up(self, host):
         self._rec("up", host)
@@ -293,7 +301,7 @@ class RecLBP(RoundRobinPolicy):
         RoundRobinPolicy.on_remove(self, host)
 
     def make_query_plan(self, working_keyspace=None, query=None):
-        hosts = sorted(self._live_hosts, key=lambda h: host_no(h.address))
+        hosts = sorted(self._live_hosts, key=host_num)
         return iter(hosts)
 
 
@@ -301,11 +309,19 @@ class RefreshHarness:
     """One simulated cluster (control node 0 + FakeNodes for every peer number) whose control node's system tables
     are rewritten from a spec snapshot before every refresh."""
 
-    def __init__(self, peers, v2=False):
+    def __init__(self, peers, v2=False, same_addr=()):
         self.peers = sorted(peers)
+        # hosts behind the control node's address (own native port); only system.peers_v2 can describe them
+        self.same_addr = set(same_addr) if v2 else set()
         self.world = SimWorld()
         self.nodes = {}
         for h in [0] + self.peers:
+            if h in self.same_addr:
+                n = FakeNode(addr(0), host_id=hid(h), tokens=tokens_of(h, 1))
+                n.world = self.world
+                self.world.nodes[(addr(0), 9042 + h)] = n
+                self.nodes[h] = n
+                continue
             n = FakeNode(addr(h), host_id=hid(h), tokens=tokens_of(h, 1))
             self.nodes[h] = self.world.add_node(n)
         self.ctl = self.nodes[0]
@@ -322,9 +338,13 @@ class RefreshHarness:
     # ---- system tables from the snapshot
     def _row(self, r, snap, occurrence):
         ep, miss, info = r["ep"], r["miss"], r["info"]
+        e = r.get("endpoint") if self.same_addr else None        # the spec's (address, port); v1 tables have no port
+        if e is None or (e["port"] != 0 and ep not in self.same_addr):
+            e = {"addr": ep, "port": 0}
         dc, rack = LOCS[info["loc"]]
         row = {"peer": addr(ep) if (ep != 0 and occurrence == 0) else "10.0.%d.%d" % (occurrence + 1, ep + 1),
-               "address": addr(ep), "data_center": dc, "rack": rack, "host_id": hid(ep),
+               "address": addr(e["addr"]), "native_port": 9042 + e["port"],
+               "data_center": dc, "rack": rack, "host_id": hid(ep),
                "release_version": "4.0.0", "schema_version": self.ctl.schema_version,
                "tokens": tokens_of(ep, info["tok"])}
         if miss == "address":
@@ -386,14 +406,14 @@ class RefreshHarness:
         out = {}
         for t, h in tm.token_to_host_owner.items():
             v = t.value
-            out[int.from_bytes(v, "big") if isinstance(v, (bytes, bytearray)) else v] = host_no(h.address)
+            out[int.from_bytes(v, "big") if isinstance(v, (bytes, bytearray)) else v] = host_num(h)
         return out
 
     def project(self, ok=True, first=False, tm_before=None):
         md = self.cluster.metadata
         known, ids = {}, {}
         for h in md.all_hosts():
-            n = host_no(h.address)
+            n = host_num(h)
             known[n] = LOC_OF.get((h.datacenter, h.rack), "%s/%s" % (h.datacenter, h.rack))
             ids[n] = h.host_id
         added, removed = {}, {}
@@ -479,8 +499,8 @@ class RefreshReplayer:
     state before the next.  Divergences are reported through `on_divergence(state, diff, signature, history)`;
     a stale token map is repaired (forced rebuild) so that the chain can continue, anything else ends the chain."""
 
-    def __init__(self, peers, on_divergence, v2=False, max_chain=3000):
-        self.peers, self.v2 = sorted(peers), v2
+    def __init__(self, peers, on_divergence, v2=False, max_chain=3000, same_addr=()):
+        self.peers, self.v2, self.same_addr = sorted(peers), v2, set(same_addr)
         self.hosts = [0] + self.peers
         self.on_divergence = on_divergence
         self.h = None
@@ -494,7 +514,7 @@ class RefreshReplayer:
     def fresh(self):
         if self.h is not None:
             self.h.shutdown()
-        self.h = RefreshHarness(self.peers, v2=self.v2)
+        self.h = RefreshHarness(self.peers, v2=self.v2, same_addr=self.same_addr)
         self.cur = node_key({0: {"loc": "none", "tok": 0}})
         self.history = []
         self.chains += 1
@@ -640,6 +660,9 @@ class AgreeHarness:
         self.timeline = []
         self.polls = []            # (seconds since the start, snapshot) of every poll the driver made
         self.t0 = 0.0
+        self.fault_at_poll = None  # index of the poll that is answered by closing the connection
+        self.aborted_at = None
+        self.meta_enabled = bool(meta_enabled)
 
     def _current(self, now):
         cur = self.timeline[0][1]
@@ -656,7 +679,13 @@ class AgreeHarness:
                 raise SimDeadlock("the agreement wait keeps polling (more than 200 polls)")
             now = self.world.clock.now - self.t0
             s = self._current(now)
-            self.polls.append((now, s))
+            if self.fault_at_poll is not None and self.aborted_at is None and len(self.polls) == self.fault_at_poll:
+                # scripted fault: instead of answering this poll the node closes the connection the wait runs on
+                self.aborted_at = now
+                conn.server_closed()
+                return True
+            if self.aborted_at is None:               # later polls belong to the background refresh, not to this wait
+                self.polls.append((now, s))
             self._cur = s
             for n, p in enumerate(self.kpeers):
                 self.hosts[p].is_up = _IS_UP[s["st"][n]]
@@ -686,7 +715,9 @@ class AgreeHarness:
             return True
         return False
 
-    def _begin(self, wait_ticks, timeline):
+    def _begin(self, wait_ticks, timeline, fault_at_poll=None):
+        self.fault_at_poll = fault_at_poll
+        self.aborted_at = None
         self.cluster.max_schema_agreement_wait = wait_ticks * TICK
         self.timeline = list(timeline)
         self.polls = []
@@ -700,11 +731,12 @@ class AgreeHarness:
             self.hosts[p].is_up = True
         out["polls"] = list(self.polls)
         out["end"] = self.world.clock.now - self.t0
+        out["aborted_at"] = self.aborted_at
         return out
 
-    def direct(self, wait_ticks, timeline):
+    def direct(self, wait_ticks, timeline, fault_at_poll=None):
         """cluster.control_connection.wait_for_schema_agreement() -> {"outcome", "polls", "end"}."""
-        self._begin(wait_ticks, timeline)
+        self._begin(wait_ticks, timeline, fault_at_poll)
         out = {"error": None}
         try:
             out["outcome"] = self.cc.wait_for_schema_agreement()
@@ -713,9 +745,9 @@ class AgreeHarness:
             out["error"] = "%s: %s" % (type(exc).__name__, str(exc)[:200])
         return self._end(out)
 
-    def ddl(self, wait_ticks, timeline):
+    def ddl(self, wait_ticks, timeline, fault_at_poll=None):
         """A CREATE TABLE request answered with a SCHEMA_CHANGE result -> {"outcome": is_schema_agreed, ...}."""
-        self._begin(wait_ticks, timeline)
+        self._begin(wait_ticks, timeline, fault_at_poll)
         out = {"error": None, "outcome": "unset"}
         try:
             fut = self.session.execute_async("CREATE TABLE ks.t (k int PRIMARY KEY)")
@@ -746,20 +778,32 @@ class AgreeHarness:
             pass
 
 
-def agree_trace(harnesses, mode, wait_ticks, timeline):
+def agree_trace(harnesses, mode, wait_ticks, timeline, fault_at_poll=None):
     """Run the real wait once on a scripted timeline; returns (trace for Trace_ControlAgree.tla, raw observation).
-    The trace has no Finish event when the call raised / never completed (such a trace cannot be accepted)."""
+    With `fault_at_poll` = k the k-th poll (0-based) is answered by closing the connection the wait runs on: an
+    exception escapes from the wait (event Abort); the harness used is replaced by a fresh one afterwards.
+    The trace ends with a `Broken` event (which no specification action matches) when the call raised / never
+    completed without a scripted fault."""
+    key = "nometa" if mode in ("direct", "ddl_nometa") else "meta"
+    h = harnesses[key]
     if mode == "direct":
-        got = harnesses["nometa"].direct(wait_ticks, timeline)
+        got = h.direct(wait_ticks, timeline, fault_at_poll)
     else:
-        got = harnesses["meta" if mode == "ddl_meta" else "nometa"].ddl(wait_ticks, timeline)
+        got = h.ddl(wait_ticks, timeline, fault_at_poll)
     tr = [{"e": "Start", "wait": wait_ticks, "mode": mode}]
     for now, s in got["polls"]:
         tr.append({"e": "Poll", "at": tick_of(now), "snap": {"local": s["local"], "pv": list(s["pv"]), "st": list(s["st"])}})
-    if got["outcome"] is True or got["outcome"] is False:
+    done = got["outcome"] is True or got["outcome"] is False
+    if got["aborted_at"] is not None and (done or got["outcome"] == "raised"):
+        v = "n/a" if (mode == "direct" and not done) else ("yes" if got["outcome"] is True else "no" if done else "n/a")
+        tr.append({"e": "Abort", "v": v, "at": tick_of(got["aborted_at"])})
+    elif done:
         tr.append({"e": "Finish", "v": "yes" if got["outcome"] else "no", "at": tick_of(got["end"])})
     else:
         tr.append({"e": "Broken", "what": str(got["outcome"]), "error": got["error"]})
+    if got["aborted_at"] is not None:
+        h.shutdown()
+        harnesses[key] = AgreeHarness(h.kpeers, h.upeers, h.meta_enabled)
     return tr, got
 
 
@@ -776,6 +820,10 @@ def agree_signature(trace, rejected_at):
     polls = [e for e in trace[:rejected_at] if e["e"] == "Poll"]
     if ev["e"] == "Broken":
         return "agree:%s:%s" % (mode, ev["what"])
+    if ev["e"] == "Abort":
+        if mode == "direct":
+            return "agree:direct:returned-%s-although-the-wait-was-cut-short" % ev["v"]
+        return "agree:%s:is_schema_agreed-%s-after-the-wait-raised" % (mode, {"yes": "True", "no": "False"}.get(ev["v"], ev["v"]))
     if ev["e"] == "Poll":
         if polls and _uniform(polls[-1]["snap"]):
             return "agree:%s:polled-after-agreement" % mode
